@@ -156,15 +156,15 @@ theorem SoundE.fn {f f'} (hf : Q D f f') : SoundE Q D (.fn f) (.fn f') := by
   intro N call ρ k env env' σ σ' β hp hs he
   simp only [evalE]
   have := hs.allocClosure (c := ⟨f, env.locals, []⟩) (c' := ⟨f', env'.locals, []⟩) ⟨.nil, D, hf, he.loc⟩
-  exact RRel.mono (le_extF _ _) (RRel.okOne (by simp only [VRel, extF]; exact .inr ⟨rfl, rfl⟩) this)
+  exact RRel.mono hs.le_extF (RRel.okOne (by simp only [VRel, extF]; exact .inr ⟨rfl, rfl⟩) this)
 
 theorem SoundE.table {es es'} (ih : SoundEntries Q D es es') : SoundE Q D (.table es) (.table es') := by
   intro N call ρ k env env' σ σ' β hp hs he
   simp only [evalE]
   have := hs.allocTable (t := { entries := [], mt := none }) (t' := { entries := [], mt := none }) ⟨.nil, trivial⟩
-  refine RRel.mono (le_extT σ.tables.length σ'.tables.length) ?_
+  refine RRel.mono hs.le_extT ?_
   have ht : (extT β σ.tables.length σ'.tables.length).t σ.tables.length σ'.tables.length := .inr ⟨rfl, rfl⟩
-  exact RRel.bind (ih N call ρ k env env' _ _ _ _ _ _ hp this (he.mono (le_extT _ _)) ht) fun _ hle _ _ _ _ _ h =>
+  exact RRel.bind (ih N call ρ k env env' _ _ _ _ _ _ hp this (he.mono hs.le_extT) ht) fun _ hle _ _ _ _ _ h =>
     RRel.okOne (by simp only [VRel]; exact hle.t _ _ ht) h
 
 theorem SoundE.ifx {c c' t t' el el' e e'} (ihc : SoundE Q D c c') (iht : SoundE Q D t t')
